@@ -419,6 +419,7 @@ def check_shipped_estimate(ctx, case):
         return
     ctx.event('shipped-estimate:%s' % case['lib'])
     lo, hi = float(r[0]), float(r[1])
+    check_standard_errors(ctx, L, est, lo, hi, '%s %s' % (case['lib'], smi))
     for X in PROPS:
         need = {'CpoR': lambda g: bool(g.ND_Cp_data), 'HoRT': lambda g: g.ND_H_ref is not None, 'SoR': lambda g: g.ND_S_ref is not None,
                 'GoRT': lambda g: g.ND_H_ref is not None and g.ND_S_ref is not None}[X]
@@ -439,6 +440,36 @@ def check_shipped_estimate(ctx, case):
             ctx.count()
             if res[0] != 'raise':
                 ctx.fail('outside-reported-range-returns-number:%s' % X, '[%s %s] %s(%r) = %r, reported range (%r, %r)' % (case['lib'], smi, X, T, res[1], lo, hi))
+                return
+
+
+def check_standard_errors(ctx, L, est, lo, hi, tag):
+    """the standard errors of an estimate (libraries with uncertainty data) are properties of it like the others: a finite number
+    inside the range, an error outside the range and outside the span of the library's RMSE correlation"""
+    if not getattr(L, 'uq_contents', None):
+        return
+    try:
+        rm = L.uq_contents['RMSE'].thermochem
+        ts = sorted(float(t) for t in rm.ND_Cp_data)
+    except Exception:
+        return
+    lo_all, hi_all = min(lo, ts[0]), max(hi, ts[-1])
+    for X in ('HoRT_SE', 'SoR_SE', 'CpoR_SE'):
+        for T in (max(lo, ts[0]), 0.5 * (max(lo, ts[0]) + min(hi, ts[-1])), min(hi, ts[-1])):
+            res = evaluate(est, X, T)
+            ctx.count()
+            if res[0] == 'raise' or not (isinstance(res[1], numbers.Real) and math.isfinite(res[1]) and res[1] >= 0):
+                ctx.fail('standard-error-inside-range:%s' % X, '[%s] get_%s(%r) -> %r inside the range (%r, %r)' % (tag, X, T, res[1], lo, hi))
+                return
+        for T in (lo_all * (1 - 1e-6), hi_all * (1 + 1e-6), 0.5 * lo_all, 2.0 * hi_all, 0.0, -5.0, 1e6):
+            if lo_all <= T <= hi_all:
+                continue
+            res = evaluate(est, X, T)
+            ctx.count()
+            ctx.event('standard-error:outside')
+            if res[0] != 'raise':
+                ctx.fail('outside-range-returns-number:%s' % X, '[%s] get_%s(%r) = %r returned silently; the estimate is valid on (%r, %r), the RMSE correlation is tabulated on (%r, %r)'
+                         % (tag, X, T, res[1], lo, hi, ts[0], ts[-1]))
                 return
 
 
